@@ -1,6 +1,6 @@
 (* C08 — A finished bundle contains everything that was added or discovered. *)
 From Slug Require Import Base.Str Base.PathAlg Addr.Resolve Addr.ResolveProofs
-  Bundle.Versions Bundle.Builder Bundle.BuilderProofs.
+  Bundle.Versions Bundle.Builder Bundle.BuilderProofs Bundle.BuilderTrace.
 
 (* For every world (fetcher, registry, finders as total functions), every
    sequence of Add calls and Close, with any fuel: if no operation reported an
@@ -35,6 +35,20 @@ Proof.
   destruct (find_registry_source w st p sub sid). exact (proj1 Hs).
 Qed.
 
+(* Metadata supplied by the fetcher is retrievable unchanged: in every run, the
+   bundle's metadata table holds, for each fetched package, exactly the metadata
+   the fetcher returned with it, and nothing else. *)
+Theorem C08_metadata_retrievable :
+  forall fuel w ops st outs,
+    run_ops fuel w init_state ops = (st, outs) ->
+    forall p m, In (p, m) (metas st) <->
+      exists c c', In (p, c) (dirs st) /\ w_fetch w p = Some (c', Some m).
+Proof.
+  intros fuel w ops st outs Hr p m.
+  pose proof (metadata_recorded w fuel ops init_state st outs eq_refl Hr) as H.
+  unfold meta_inv in H. rewrite H. apply metas_of_in.
+Qed.
+
 (* Relative dependencies resolve inside the declaring package: same package,
    valid sub-path (from C11). *)
 Theorem C08_relative_inside_package :
@@ -58,3 +72,4 @@ Proof. vm_compute. split; reflexivity. Qed.
 Print Assumptions C08_build_is_closure.
 Print Assumptions C08_registry_resolution_is_cache_independent.
 Print Assumptions C08_relative_inside_package.
+Print Assumptions C08_metadata_retrievable.
